@@ -95,7 +95,7 @@ def cases(ctx):
         if rng.random() < 0.5:
             c["batchsize"] = rng.randint(1, max(1, n // 2))
         else:
-            c["num_batches"] = rng.randint(2, min(n, 9))
+            c["num_batches"] = rng.randint(2, min(n, 9)) if rng.random() < 0.6 else rng.randint(min(n, 10), min(n, 14))   # (also more than nine batches of uneven size)
         yield c
 
 
